@@ -39,7 +39,7 @@ func (t *tools) moduleFiles(mod string) map[string]string {
 	}
 }
 
-var reHelperDef = regexp.MustCompile(`(ɪʇ\d*|ɐɹ\d*) :=`)
+var reHelperDef = regexp.MustCompile(`(ɪʇ\d+|ɐɹ\d+) :=`)
 
 // helperClash reports a generated helper identifier that is defined twice within one function.
 func helperClash(src string) string {
